@@ -69,6 +69,11 @@ broken translator obligation):
                the attribute values the constructor leaves are parameters of the generated definition (the statement
                itself is dropped), `return <name>` returns the attributes.  `f(<obj>, args...)` as a statement, for a
                procedure `f` translated earlier with an object parameter of a subset of the attributes, rebinds them.
+  variables  : "var:<name>=optslice" declares a local variable that holds `None` or `slice(a, b)` of ints
+               (`Option (Int × Int)`): `x = None`, `x = slice(a, b)`, `x is None` / `x is not None` as an `if` test,
+               `x.start` / `x.stop` / `x` itself where it is known to be a slice.  `yield Rec(...)` for the records in
+               RECORD_CALLS keeps the listed arguments (`ReserveResourceConstraint(resource, reservation, chip)`: the
+               reservation; the other two are opaque objects passed through).
   events     : return type `ev:<t>`: calls of the methods in EVENT_CALLS (`warnings.warn`, `self._parent._perform_read`,
                `self._parent._perform_write`) are recorded, in order, in a list of `PyEvent` (name, integer arguments,
                bytes argument; the arguments of `warn` - a message - are not modelled) that is the LAST component of
@@ -206,6 +211,8 @@ FUNCS = [
     ("rig/machine_control/packets.py", "SDPPacket.from_bytestring", ["local:packet=" + SDP_OBJ, "bytes"], "exc:none"),
     ("rig/machine_control/packets.py", "SCPPacket.from_bytestring", ["local:packet=" + SCP_OBJ, "bytes", "int"],
      "exc:none"),
+    ("rig/place_and_route/utils.py", "_get_minimal_core_reservations",
+     ["ignored", "list:int", "ignored", "var:reservation=optslice"], "gen:tup2"),
     ("rig/machine_control/machine_controller.py", "MachineController.send_signal", ["obj:", "int", "int"],
      "exc:calls:7"),
     ("rig/machine_control/machine_controller.py", "MachineController.count_cores_in_state", ["obj:", "int", "int"],
@@ -243,7 +250,7 @@ EVENT_CALLS = {"send": (("bytes",), None), "warn": (None, None), "_perform_read"
 # association lists `List (Nat × Nat)`: `D[k]` raises KeyError when absent
 KEY_DICTS = {"signal_types": "Rig.Gen.LoadSig.signalTypes", "diagnostic_signal_types": "Rig.Gen.LoadSig.diagSignalTypes"}
 # named tuples whose construction may be yielded: the positional arguments kept, keyword arguments ignored
-RECORD_CALLS = {"scpcall": ("callback",)}
+RECORD_CALLS = {"scpcall": ("callback",), "ReserveResourceConstraint": ((), (1,))}
 # classes whose construction may be returned: the integer arguments kept (by position)
 CONSTRUCTORS = {"SlicedMemoryIO": (1, 2)}
 
@@ -488,6 +495,7 @@ class Tr(object):
         self.uses_fuel = False
         self.fn = None
         self.nloops = 0
+        self.optslices = set()        # local variables declared `optslice`
         self.local_obj = False        # the object is created by the function itself (`x = cls()`)
         self.objname = "self"         # name of the parameter declared "obj:..."
         self.mro = [cls]              # the class and its base classes (same file), for properties of `self`
@@ -629,6 +637,8 @@ class Tr(object):
         """an optional-int expression: (Lean expr : Option Int, key, narrowed name) or None"""
         if isinstance(n, ast.Name) and self.types.get(n.id) == "optint":
             return ident(n.id), ast.dump(n), ident(n.id) + "_v"
+        if isinstance(n, ast.Name) and n.id in self.optslices and self.lty.get(ident(n.id)) == "Option (Int × Int)":
+            return ident(n.id), ast.dump(n), ident(n.id) + "_v"
         if isinstance(n, ast.Attribute) and isinstance(n.value, ast.Name) and self.types.get(n.value.id) == "oslice" \
                 and n.attr in ("start", "stop", "step"):
             i = ("start", "stop", "step").index(n.attr)
@@ -644,6 +654,8 @@ class Tr(object):
     def tyof(self, n):
         """Lean type of the value of an expression (only as precise as the loop-state annotations need)"""
         if isinstance(n, ast.Name):
+            if n.id in self.optslices and ast.dump(n) in self.narrow:
+                return "Int × Int"
             return self.lty.get(ident(n.id), "Int")
         if isinstance(n, ast.Constant) and isinstance(n.value, bool):
             return "Bool"
@@ -870,6 +882,10 @@ class Tr(object):
                 raise NotImplementedError("name " + n.id)
             if self.types.get(n.id) == "obj":
                 raise NotImplementedError("the object `%s` itself used as a value" % n.id)
+            if n.id in self.optslices and self.lty.get(ident(n.id)) == "Option (Int × Int)":
+                if ast.dump(n) in self.narrow:
+                    return self.narrow[ast.dump(n)]
+                raise NotImplementedError("optional slice `%s` used without an `is None` test" % n.id)
             if self.types.get(n.id) in ("optint", "oslice") and ident(n.id) in self.lty \
                     and self.lty[ident(n.id)].startswith("Option"):
                 if ast.dump(n) in self.narrow:
@@ -933,6 +949,12 @@ class Tr(object):
             if o[1] in self.narrow:
                 return self.narrow[o[1]]
             raise NotImplementedError("optional used as a value without an `is None` test: " + ast.dump(n)[:60])
+        if isinstance(n, ast.Attribute) and isinstance(n.value, ast.Name) and n.value.id in self.optslices \
+                and n.attr in ("start", "stop"):
+            key = ast.dump(ast.Name(id=n.value.id, ctx=ast.Load()))
+            if key not in self.narrow:
+                raise NotImplementedError("optional slice `%s` used without an `is None` test" % n.value.id)
+            return self.narrow[key] + (".1" if n.attr == "start" else ".2")
         if isinstance(n, ast.Attribute) and isinstance(n.value, ast.Name) and self.types.get(n.value.id) == "slice":
             if n.attr == "start":
                 return n.value.id + ".1"
@@ -1259,7 +1281,14 @@ class Tr(object):
             v = s.value.value
             if isinstance(v, ast.Call) and isinstance(v.func, ast.Name) and v.func.id in RECORD_CALLS \
                     and v.func.id not in self.lty:
-                ignored = RECORD_CALLS[v.func.id]
+                spec = RECORD_CALLS[v.func.id]
+                if spec and isinstance(spec[0], tuple):
+                    # only the listed positional arguments are kept (the others are opaque objects passed through)
+                    ignored, keep = spec
+                    if any(k.arg not in ignored for k in v.keywords) or max(keep) >= len(v.args):
+                        raise NotImplementedError("record %s" % v.func.id)
+                    return v.args[keep[0]] if len(keep) == 1 else ast.Tuple(elts=[v.args[i] for i in keep], ctx=ast.Load())
+                ignored = spec
                 n = len(self.base()[4:].split(","))
                 if len(v.args) != n or any(k.arg not in ignored for k in v.keywords):
                     raise NotImplementedError("record %s with %d positional arguments" % (v.func.id, len(v.args)))
@@ -1536,6 +1565,21 @@ class Tr(object):
                     self.lty[nm] = "Int"
                 else:
                     raise NotImplementedError("struct value assigned to %s : %s" % (nm, ty))
+            return self.seq(pad, text, rest, ind, tail)
+        if isinstance(s, ast.Assign) and len(s.targets) == 1 and isinstance(s.targets[0], ast.Name) \
+                and s.targets[0].id in self.optslices:
+            v = s.value
+            nm = ident(s.targets[0].id)
+            if isinstance(v, ast.Constant) and v.value is None:
+                val = "none"
+            elif (isinstance(v, ast.Call) and isinstance(v.func, ast.Name) and v.func.id == "slice" and len(v.args) == 2
+                  and not v.keywords and "slice" not in self.lty):
+                val = "(some (%s, %s))" % (self.e(v.args[0]), self.e(v.args[1]))
+            else:
+                raise NotImplementedError("value assigned to the optional slice " + nm)
+            self.narrow.pop(ast.dump(ast.Name(id=s.targets[0].id, ctx=ast.Load())), None)   # no longer known
+            self.lty[nm] = "Option (Int × Int)"
+            text = "%slet %s : Option (Int × Int) := %s\n" % (pad, nm, val)
             return self.seq(pad, text, rest, ind, tail)
         if isinstance(s, ast.Assign) and len(s.targets) == 1:
             t = s.targets[0]
@@ -1991,6 +2035,11 @@ def translate(repo, rel, fname, ptypes, ret, done=None):
     if a.vararg or a.kwarg or a.kwonlyargs or getattr(a, "posonlyargs", []):
         raise NotImplementedError("%s: parameter kinds" % fname)
     params = [x.arg for x in a.args]
+    # declared local variables (`var:<name>=optslice`: None or slice(a, b) of ints)
+    var_types = dict(t[4:].split("=", 1) for t in ptypes if t.startswith("var:"))
+    ptypes = [t for t in ptypes if not t.startswith("var:")]
+    if any(v != "optslice" for v in var_types.values()):
+        raise NotImplementedError("%s: variable types %r" % (fname, var_types))
     # a local object (`local:<name>=obj:...`): its attributes - as the constructor leaves them - are parameters
     local_obj = [t[6:].split("=", 1) for t in ptypes if t.startswith("local:")]
     ptypes = [t for t in ptypes if not t.startswith("local:")]
@@ -2051,6 +2100,7 @@ def translate(repo, rel, fname, ptypes, ret, done=None):
     tr.attr_specs = [x for x in (tr.obj_spec or "obj:")[4:].split(";")[0].split(",") if x]
     tr.objname = objname
     tr.local_obj = bool(local_obj)
+    tr.optslices = set(var_types)
     tr.mro = class_mro(tree, cls) if cls else [None]
     tr.consts = dict((k, v) for k, v in module_int_consts(tree).items())
     tr.lty = lty
